@@ -156,6 +156,26 @@ CHECKS["C15"] = dict(
     note="Trusted base: TLC; independent .splat/PLY parsers and SPZ stream builder; gzip framing from the standard library.",
     design="3/C15 and NOTES-trunc.md", technique="TLA+ layout law + TLC-generated streams + TLC trace validation")
 
+CHECKS["C16"] = dict(
+    text=("SpatialIndex.tla: contract (result set = exhaustive scan over per-element facts; closest = minimal squared distance, ties "
+          "free; nearest ray hit = linear HitList) and TreeSound (every element in exactly one cell, cell bounds contain everything "
+          "below); SpatialIndexMC: implementation-shaped traversal with pruning and best-first queue, on which TLC shows pruning is "
+          "complete iff TreeSound and refutes the shared-loop-variable variant. Seeded and TLC-enumerated element sets (points, segments, "
+          "triangles, spheres; clustered, coincident, single) on lattice coordinates; the real octree is dumped (hook), facts come from "
+          "the element-level primitives over all elements, and TraceSpatial.tla judges every query of OctTree and BVH."),
+    note=("Trusted base: TLC; hook trees.VerifCells (build tag verif); lattice coordinates so squared distances are exact integers; "
+          "'within a radius' is measured on element bounds as the library defines it."),
+    design="3/C16 and NOTES-spatial.md", technique="TLA+ contract + dumped real structures + TLC trace validation")
+CHECKS["C20"] = dict(
+    text=("Delaunay.tla: exact integer Orient/InCircle determinants, GeneralPosition, UsesInput, SameWinding, PositiveArea, NoOverlap, "
+          "EmptyCircle; DelaunayBW.tla: Bowyer-Watson state machine checked by TLC for every general-position sequence of <= 5 points "
+          "on a 4x4 lattice (reproduces the fixed-margin super-triangle defect at design level). Real BowyerWatson runs on lattice "
+          "point sets and their exact scaled/offset images (uniform, clustered, near-collinear hulls); TraceDelaunay.tla judges every "
+          "triangulation on the small lattice coordinates."),
+    note=("Trusted base: TLC; scaling by 2^k and offsets exact in float64; hull coverage is not in the statement and only counted; an "
+          "all-empty run is reported as vacuous (exit 2), never as a pass."),
+    design="3/C20 and NOTES-spatial.md", technique="TLA+ exact predicates + TLC-enumerated point sets + TLC trace validation")
+
 NOT_APPLICABLE = []
 
 
@@ -190,7 +210,7 @@ def main():
             "guard": "verif",
             "enable": "go build -tags verif (harness module /verif/harness with replace => /repo)",
             "baseline_off_cmd": BASE_OFF,
-            "source_commits": ["fc07cc2"],
+            "source_commits": ["fc07cc2", "0ec44c3"],
             "add_only": True,
         },
         "engines": [
